@@ -54,7 +54,7 @@ def run(tier):
                 add(c, 0, [clc] * q + [(line, h), ("ret", "c3")], "grid")
     nrand = 1500 if not full else 60000
     for k in range(nrand):
-        c = rnd.choice(cs + [0, 1, -1, 2, 1000000, 128, 255, 256, 1024, 32768, 65536])
+        c = rnd.choice(cs + [0, 1, -1, 2, 1000000, 128, 255, 256, 1024, 32768, 65536]) if k % 4 else rnd.randrange(2, 131)  # also every size 2..130
         prog = [rnd.choice(allc) for _ in range(rnd.randrange(1, 40))]
         tot = sum(len(p[1]) // 2 for p in prog)
         if k % 5 == 0:
